@@ -64,6 +64,10 @@ func main() {
 		runGenerator(os.Args[2:])
 		return
 	}
+	if name == "stress" {
+		stress(os.Args[2:])
+		return
+	}
 	fs := flag.NewFlagSet(name, flag.ExitOnError)
 	out := fs.String("out", "", "output directory")
 	tier := fs.String("tier", "quick", "quick|thorough")
